@@ -55,6 +55,8 @@ def fault_sites(block):
             out.append(('mem_enable_width', i))
         if n.op == 'r':
             out.append(('reg_dest_not_register', i))
+            out.append(('reg_two_drivers', i))         # a second 'r' net into the same register
+            out.append(('reg_two_drivers_mixed', i))   # a 'w' net into a register that has its 'r' net
         if n.op not in 'r@' and n.args:
             out.append(('input_as_dest', i))
             out.append(('const_as_dest', i))
@@ -75,6 +77,9 @@ def fault_sites(block):
             out.append(('duplicate_name_setter', k))
     out.append(('no_bitwidth_wire', 0))
     out.append(('byname_inconsistent', 0))
+    # faults that change only ATTRIBUTES of existing wires (the sets of nets and wires stay the same)
+    for k in range(3):
+        out.append(('attr_bitwidth', k))
     return out
 
 
@@ -92,7 +97,19 @@ def apply_fault(block, kind, idx):
     def replace(new):
         block.logic.remove(n)
         block.logic.add(new)
-    if kind == 'two_drivers':
+    if kind in ('reg_two_drivers', 'reg_two_drivers_mixed'):
+        src = fresh(n.dests[0].bitwidth, pyrtl.Input, 'flt_in')
+        block.logic.add(LogicNet('r' if kind == 'reg_two_drivers' else 'w', None, (src,), n.dests))
+    elif kind == 'attr_bitwidth':
+        # widen one operand wire of a width-constrained net in place
+        cands = [m for m in nets if m.op in '&|^+-<>=' and len(m.args) == 2 and m.args[0] is not m.args[1]]
+        if len(cands) <= idx:
+            return False
+        w = cands[idx].args[idx % 2]
+        w.bitwidth = w.bitwidth + 1
+        if '_bitmask' in w.__dict__:
+            del w.__dict__['_bitmask']
+    elif kind == 'two_drivers':
         src = fresh(n.dests[0].bitwidth, pyrtl.Input, 'flt_in')
         block.logic.add(LogicNet('w', None, (src,), n.dests))
     elif kind == 'undriven':
@@ -243,8 +260,16 @@ def check_fault(design, kind, idx):
     accepted = (pyrtl.PyrtlError, pyrtl.PyrtlInternalError)
     results = {}
     for who in ('sanity_check', 'Simulation', 'FastSimulation', 'CompiledSimulation',
-                'Simulation|foreign', 'FastSimulation|foreign', 'CompiledSimulation|foreign'):
+                'Simulation|foreign', 'FastSimulation|foreign', 'CompiledSimulation|foreign',
+                'sanity_check|prechecked', 'Simulation|prechecked', 'FastSimulation|prechecked'):
         block = designs.build(design)
+        if who.endswith('|prechecked'):
+            # a history: the healthy block is checked and simulated first, the fault comes afterwards
+            try:
+                block.sanity_check()
+                pyrtl.Simulation(block=block)
+            except accepted:
+                pass
         try:
             if not apply_fault(block, kind, idx):
                 return dict(failed=False, observed='fault not applicable', expected='-', skipped=True)
@@ -279,7 +304,7 @@ def check_fault(design, kind, idx):
     # every simulator must therefore refuse the block; sanity_check alone may accept (e.g. a
     # combinational loop is found by the block iterator) but must not raise a foreign exception
     bad = {k: v for k, v in results.items()
-           if not v.startswith('rejected') and not (k == 'sanity_check' and v == 'ACCEPTED')}
+           if not v.startswith('rejected') and not (k.split('|')[0] == 'sanity_check' and v == 'ACCEPTED')}
     return dict(failed=bool(bad), observed=results,
                 expected='PyrtlError/PyrtlInternalError from every simulator (and no foreign '
                          'exception from sanity_check)')
